@@ -20,6 +20,14 @@ NAMES = ["Spa", "My Spa", "Spa du Châlet", "Ünïcödé ÿ", "A|B", "|lead", "t
 
 
 def gen_case(seed: int, tier: str, index: int) -> Dict[str, Any]:
+    if index % 40 == 39:
+        from props import c15_t
+
+        return c15_t.gen_case(seed, tier, index // 40, _gen_case_a)
+    return _gen_case_a(seed, tier, index)
+
+
+def _gen_case_a(seed: int, tier: str, index: int) -> Dict[str, Any]:
     rng = random.Random(mix(seed, "c15.case"))
     profile = PROFILES[index % len(PROFILES)] if index < 3 * len(PROFILES) else rng.choice(PROFILES)
     initial = rng.choice([1, 2, 4])
@@ -282,6 +290,10 @@ async def scenario(world: WorldA) -> None:
 
 
 def run_case(case: Dict[str, Any], replay: Optional[Dict[str, Any]] = None, keep_log: bool = False) -> RunResult:
+    if case.get("world") == "T":
+        from props import c15_t
+
+        return c15_t.run_case(case, replay, keep_log)
     world = WorldA(case, replay, keep_log=keep_log)
     return world.run(scenario)
 
@@ -304,7 +316,7 @@ ASSUMPTIONS = [
     "the hello consumer takes one queued reply per polling interval; 'answered by the time of return' allows that service time",
     "two spas never share an identifier",
 ]
-PROBES = ["second_discovery_in_one_process", "name_with_separator", "duplicate_replies", "reply_after_return", "nothing_listed", "three_or_more_listed", "returned_on_requested_spa"]
+PROBES = ["blocking_locator", "identifier_given_as_bytes", "second_discovery_in_one_process", "name_with_separator", "duplicate_replies", "reply_after_return", "nothing_listed", "three_or_more_listed", "returned_on_requested_spa"]
 N_QUICK = 60000
 
 
@@ -326,3 +338,11 @@ def job_cases(job, tier: str, base_seed: int):
         c = gen_case(run_seed(PROP, base_seed, i), tier, i)
         c["subspace"] = "seeded:" + c["cfg"]["profile"] + ":" + c["cfg"]["filter"]
         yield c
+
+
+def selftest_case(base_seed: int, tier: str, index: int):
+    """Determinism self-test: every third index is a blocking-locator (World T) case."""
+    from sim.driver import run_seed
+
+    i = 40 * (index // 3) + 39 if index % 3 == 2 else index
+    return gen_case(run_seed(PROP, base_seed, i), tier, i)
